@@ -33,27 +33,29 @@ Theorem c10_transition_sound : forall c resps fs, (14 <= t_room c)%nat ->
 Proof. exact transition_sound. Qed.
 Print Assumptions c10_transition_sound.
 
-(* "the frame is fine" (frame_ok above) = every answer in it names the requested state and none
-   carries the error indication *)
+(* "the frame is fine" (frame_ok above) = every answer in it was serviced by exactly one device,
+   names the requested state and does not carry the error indication *)
 Theorem c10_frame_ok_spec : forall st ans, frame_ok st ans = true <->
-  Forall (fun a => al_error (fst a) = false /\ al_state (fst a) = st) ans.
+  Forall (fun a => snd a = 1 /\ al_error (fst a) = false /\ al_state (fst a) = st) ans.
 Proof. exact frame_ok_spec. Qed.
 Print Assumptions c10_frame_ok_spec.
 
-(* A member that signals an error while the group waits - before the timeout and before an answer
-   naming another state is met in the same frame - ends the transition with Err(StateTransition),
-   whichever state its status names. *)
-Theorem c10_error_while_waiting : forall f c subs ans more used r rest fs u,
+(* A status answer that fails while the group waits - nobody (or more than one device) serviced
+   the read, or the member signals an error, whichever state its status names - before the timeout
+   and before an answer naming another state is met in the same frame, ends the transition with
+   that error: WorkingCounter{1, received} or StateTransition. *)
+Theorem c10_error_while_waiting : forall f c subs ans more used r rest fs u e,
   is_state (S f) c subs (ans :: more) used = (r, rest, fs, u) ->
-  fs <> [] -> (S used < t_limit c)%nat -> frame_error (t_desired c) ans = true ->
-  r = Err TStateTransition.
+  fs <> [] -> (S used < t_limit c)%nat -> frame_scan (t_desired c) ans = VFail e ->
+  r = Err e.
 Proof. exact is_state_error. Qed.
 Print Assumptions c10_error_while_waiting.
 
-Theorem c10_frame_error_spec : forall st ans, frame_error st ans = true <->
-  exists pre a post, ans = pre ++ a :: post /\ frame_ok st pre = true /\ al_error (fst a) = true.
-Proof. exact frame_error_spec. Qed.
-Print Assumptions c10_frame_error_spec.
+Theorem c10_frame_fail_spec : forall st ans e, frame_scan st ans = VFail e <->
+  exists pre a post, ans = pre ++ a :: post /\ frame_ok st pre = true /\
+    ((snd a <> 1 /\ e = TWkc 1 (snd a)) \/ (snd a = 1 /\ al_error (fst a) = true /\ e = TStateTransition)).
+Proof. exact frame_scan_fail. Qed.
+Print Assumptions c10_frame_fail_spec.
 
 (* Requests go to members only - also on the failing paths. *)
 Theorem c10_members_only : forall room subs st resps r fs,
